@@ -106,7 +106,7 @@ PROPS['C05'] = dict(
     rule='three executors. list: pool of 24 nodes, two rings, <= 300 ops (add_next/add_prev/add_node at any ring position, del_node/del_next/del_prev of real nodes, rot_next/rot_prev on any '
          'length incl. 0/1, mov_next/mov_prev of a non-empty ring followed by a_list_init, set_node, swap_node of distinct non-adjacent nodes in one ring or across rings, section '
          'del_/add_/set_/swap_ on disjoint non-adjacent sections); slist: add_head/add_tail/add/del/del_head/rot/mov on two lists incl. empty and one-element lists; removal-safe iteration macros of both list kinds (all spellings) with deletions selected by a mask from inside the loop body; que: two queues, '
-         'element sizes {0->1,1,2,3,4,8,12,16}, push/pull either end, insert/remove with indices up to SIZE_MAX, at() for negative/huge indices, push_sort, push+sort_fore/sort_back on sorted '
+         'element sizes {0->1,1,2,3,4,8,12,16}, push/pull either end, insert/remove with indices up to SIZE_MAX (incl. SIZE_MAX-k, 2^63+-k, 2^32-1+k: the signed views -1, -2, ...), at() for negative/huge indices, push_sort, push+sort_fore/sort_back on sorted '
          'contents, element swap (adjacent, non-adjacent or identity), whole-queue swap, drop, setz, foreach (macro forms), bulk push/pull of 8..80 elements, comparator styles as for the trees, and a fill-to-K / pull-a-few / drop scenario with K around the pool thresholds 8..65; after every op both rings are walked forwards and backwards against the model, element '
          'addresses must stay fixed and a pushed slot must not alias an enqueued element. non-trivial = list: a cross-ring swap or a section op; slist: a rot/mov on length <= 1 AND one on '
          'length >= 3; que: a pull followed by >= 2 pushes (recycling) or a whole-queue swap with a non-empty side. distinct = hash of the decoded op bytes and positions',
@@ -208,7 +208,7 @@ PROPS['C08'] = dict(
 
 PROPS['C17'] = dict(
     level='exploration',
-    rule='choice tape -> CRC case (width 8/16/32/64, bit order, polynomial from published ones or arbitrary incl. top bit set, arbitrary initial value, message of 0..300 bytes: digits, arbitrary, high bytes, text-like, or records of 2/4/8-byte machine words in either byte order from a boundary pool with copy / negation / complement / +1 of the predecessor and zero runs; two split points) or hash case '
+    rule='choice tape -> CRC case (width 8/16/32/64, bit order, polynomial from published ones, arbitrary incl. top bit set, the bit reversal of a tape word, or an integer literal harvested from the library source / its bit reversal, arbitrary initial value, message of 0..300 bytes: digits, arbitrary, high bytes, text-like, or records of 2/4/8-byte machine words in either byte order from a boundary pool with copy / negation / complement / +1 of the predecessor and zero runs; two split points) or hash case '
          '(bkdr/sdbm, initial value, message, split point). CRC oracle: all 256 table entries and the value equal bit-by-bit polynomial division in the same bit order (reference written from the definition, own bit '
          'reflection), three-piece feeding with carried value = one shot, and the opposite bit order on bit-reflected data/value gives the bit-reflected result. Hash oracle: multiply-add definition in 32-bit arithmetic, '
          'hash(ab,v) = hash(b, hash(a,v)), NUL-terminated form = length form on the prefix before the first NUL, mixed feeding. Messages live in exact-size heap blocks (ASan). Enumeration: one message of 2^32 + d bytes per routine (7 CRC updates, 4 hash forms; a 2 MiB block of non-zero bytes mapped 2049 times), at once against three pieces shorter than 2^32. non-trivial = message >= 2 bytes containing '
@@ -265,7 +265,7 @@ PROPS['C16'] = dict(
 
 PROPS['C15'] = dict(
     level='exploration',
-    rule='two builds: a_real = double and float (u of the type in every bound). choice tape -> cubic/quintic/septic trajectory (duration 2^k, k in -10..10, or log-uniform real in [1e-3,1e3]; boundary values integers |v|<=1000 (all derivatives non-zero in 3/4 of the cases) or reals '
+    rule='two builds: a_real = double and float (u of the type in every bound). choice tape -> cubic/quintic/septic trajectory (duration 2^k, k in -10..10, or log-uniform real in [1e-3,1e3]; boundary values integers |v|<=1000 (all derivatives non-zero in 3/4 of the cases; one case in 16 with every end datum equal to plus or minus the start datum: equal, negated, time-mirrored, anti-mirrored) or reals '
          '2^-10..2^10; one case in four is a nearly degenerate request: the boundary data of a motion of degree <= 3 with one datum moved by a relative 1e-1..1e-15 or not at all) or a polynomial (n in 0..13 coefficients, integer or real, evaluation point). Oracle in exact rational arithmetic (GMP mpq, doubles convert exactly): pos(0)=p0 and vel(0)=v0 exactly, acc(0)/jer(0) '
          'within 2 ulp; stored coefficients against the exactly solved boundary-value problem and end values of the stored polynomial against the requested ones within 16384*u*falling(deg,k)*S/T^k (S = sum of |boundary data| in position units); '
          'accessor outputs = exact derivative coefficients of the stored polynomial (2 ulp), vel/acc/jer(x) = exact derivatives of the stored position polynomial within the Horner bound at 4 query times (inside, at and outside [0,T]); '
@@ -288,7 +288,7 @@ PROPS['C14'] = dict(
     level='exploration',
     rule='choice tape -> trapezoid or bell request: limits log-uniform in [0.05, 200], distance log-uniform in [1e-3, 1e4] in either direction, start position in [-1000, 1000] or 0, boundary velocities inside the limit '
          '(0, exactly on the limit, 30% opposing the travel direction, 10% outside the limit to exercise clamping); trapezoid: sign(ac) = sign(p1-p0), sign(de) = -sign(p1-p0) by construction; bell: the request is made feasible by the '
-         'standard double-S inequality (evaluated in long double; infeasible draws are repaired by doubling the distance). Only a positive return value activates the oracle (others are counted under excluded_by_construction): '
+         'standard double-S inequality (evaluated in long double; infeasible draws are repaired by doubling the distance); a third of the bell requests lie on a coarse lattice (all quantities small multiples of 1, 1/2, 1/4, 1/5, 1/8 or 1/10), two ninths are single-phase requests constructed next to the dyadic accelerations am*k/2^n the planner tries; enumeration: every bell request on the lattices listed under enumerated_domains. Only a positive return value activates the oracle (others are counted under excluded_by_construction): '
          'non-negative phase durations adding up to T, pos(0)=p0, vel(0)=clamped v0, pos(T)=p1, vel(T)=recorded v1 (1e-9*scale), hold before 0 / after T (incl. acc=jer=0 for the bell profile), continuity of pos/vel(/acc) across every '
          'phase boundary (1e-7*scale between nextafter(t_b,-inf) and t_b), |vel|<=vm, |acc|<=am, |jer|<=jm (1e-9 relative) on a 200-point grid plus every boundary +-1ulp plus segment midpoints, and vel = d pos/dt, acc = d vel/dt, '
          'jer = d acc/dt by central differences inside every phase longer than T/1000. The C++ member gen/pos/vel/acc/jer of both structures are called with the same arguments and compared bit for bit. non-trivial = any branch other than the plain full profile (no cruise, empty acceleration or deceleration phase, reduced acceleration) or '
@@ -336,7 +336,7 @@ PROPS['C12'] = dict(
          'zero, or a gain change. After every step: outmin <= out <= outmax, all state fields finite; plain/exact: output, integrator and cached fields equal a reference written from the documented difference equations exactly (real class: '
          'one-step equation within 64 ulp of the term magnitudes); integrator monotone once outside its clamp and overshooting by at most one increment; an incremental twin fed the same positional history agrees exactly for as long as no limit '
          'is active; zero then H2 equals a freshly initialised controller on H2 bit for bit (plain and neuron, the neuron keeping its present weights); a fuzzy controller with an all-zero rule base equals the plain controller exactly; fuzzy tables/operators '
-         'as in C13 with the scratch buffer sized for all sets, the gain schedule compared with the reference weighted mean after every step, set_rule (another subset of the consequent tables present) and set_opr on the live controller without re-issuing the base gains; every history is also driven through the C++ member functions of a_pid / a_pid_fuzzy / a_pid_neuro on a twin object and compared bit for bit. non-trivial = history in which an output or integrator limit became active and inactive again, or a zero occurred mid-history; distinct = hash of configuration and decoded steps',
+         'as in C13 with the scratch buffer sized for all sets, the gain schedule compared with the reference weighted mean after every step, the operator installed in four ways (setter, pointer returned by a_pid_fuzzy_opr, the fuzzy.h function named in the executor, a function of the caller), set_rule (another subset of the consequent tables present) and set_opr on the live controller without re-issuing the base gains; every history is also driven through the C++ member functions of a_pid / a_pid_fuzzy / a_pid_neuro on a twin object and compared bit for bit. non-trivial = history in which an output or integrator limit became active and inactive again, or a zero occurred mid-history; distinct = hash of configuration and decoded steps',
     assumptions=COMMON_ASSUME + ['inputs obey the quantifier: ki >= 0, summin <= 0 <= summax, outmin <= outmax, magnitudes <= 1e6 so that no intermediate overflows',
                                  'the reference model follows the equations documented in pid.h; on the exact class all arithmetic is exact, so equality is required'],
     units=lambda tier, seed: [Unit(nm, 'exec/C12.cc', ['a.c', 'math.c', 'mf.c', 'fuzzy.c', 'pid.c', 'pid_fuzzy.c', 'pid_neuro.c'], defs=config_defs(real), tape_len=500,
@@ -377,7 +377,7 @@ PROPS['C11'] = dict(
     rule='one executor binary per build configuration: a subset of the 7 switches A_HAVE_ASINH/ACOSH/ATANH/EXPM1/LOG1P/ATAN2/HYPOT (libm or fallback each) x real type (double, float) passed as -D flags to the unmodified sources; '
          'quick: all-on, all-off and two seeded random subsets for both types, thorough: all 128 subsets x 2 types. Each tape yields up to 6 sub-cases: asinh/acosh/atanh/expm1/log1p/atan2 on arguments log-uniform over the whole exponent '
          'range of the type (both signs, 1+tiny for acosh, near 0 / +-0.5 / +-1 for atanh, > -1 for log1p, all quadrants and exact axis points for atan2) plus a dictionary of formula-switch values +-4 ulp; norms of 2, 3, n <= 40 '
-         '(strided) components mixing magnitudes whose squares over/underflow (incl. subnormal components), norms of 1000..300001 components of one common magnitude around sqrt(max), sqrt(min) or anywhere in the exponent range (rapidcheck processes only; compensated long double reference), cart2pol/cart2sph/pol2cart/sph2cart; sum/sum1/sum2/mean/dot and strided forms on integer (exact) and real data; copy/swap/fill/zero/push/roll and block '
+         '(strided) components mixing magnitudes whose squares over/underflow (incl. subnormal components; components sharing one binade at / next to the square roots of the largest and smallest normal number), norms of 1000..300001 components of one common magnitude around sqrt(max), sqrt(min) or anywhere in the exponent range (rapidcheck processes only; compensated long double reference), cart2pol/cart2sph/pol2cart/sph2cart; sum/sum1/sum2/mean/dot and strided forms on integer (exact) and real data, also with both dot operands in one block (the same vector twice, x and y interleaved); copy/swap/fill/zero/push/roll and block '
          'forms on lengths 0..20 against std::rotate/copy models in exact-size heap blocks. Oracle: glibc long double functions (64-bit mantissa); accept |got-ref| <= K*u*|ref| (u = 2^-53 / 2^-24), norms (n+4)*u and finite whenever the '
          'true value is representable; atan2(0, x<0) accepts +-pi. non-trivial = argument outside [1e-3, 1e3] or on an axis, extreme norm mix, reductions/shifts with n >= 2; distinct = (configuration, function, argument bits)',
     assumptions=COMMON_ASSUME + ['reference: glibc asinhl/acoshl/atanhl/expm1l/log1pl/atan2l/sqrtl in x87 long double, whose own error (<= 1 ulp of 2^-64) is 2^-10 of the acceptance bound',
